@@ -525,6 +525,14 @@ func (hs *clientHandshakeStateTLS13) processServerHello() error {
 		c.sendAlert(alertIllegalParameter)
 		return errors.New("tls: server did not send a key share")
 	}
+	// [uTLS] SECTION BEGIN
+	// The hello may carry a GREASE key share, which is not an offer: a server
+	// must never select it (RFC 8701, Section 3.1).
+	if isGREASEUint16(uint16(hs.serverHello.serverShare.group)) {
+		c.sendAlert(alertIllegalParameter)
+		return errors.New("tls: server selected a GREASE key share group")
+	}
+	// [uTLS] SECTION END
 	if !slices.ContainsFunc(hs.hello.keyShares, func(ks keyShare) bool {
 		return ks.group == hs.serverHello.serverShare.group
 	}) {
